@@ -13,7 +13,7 @@ Proof. unfold u32w. change 4294967295 with (Z.ones 32). apply Z.land_ones. lia. 
 
 (* what VerifyPageChecksum reports for ANY page of at least 8192 bytes *)
 Definition page_result (b : bytes) (num : Z) : ChecksumResult :=
-  if all_zero b then blank_result num true else
+  if all_zero (sub b 0 8192) then blank_result num true else
   {| cr_num := num; cr_stored := fld b 8 2; cr_computed := cpc b num; cr_valid := fld b 8 2 =? cpc b num;
      cr_lsn := fld b 0 4 * 2 ^ 32 + fld b 4 4; cr_lsnstr := Some (fld b 0 4, fld b 4 4) |}.
 
@@ -33,7 +33,9 @@ Theorem verify_page_any s num : PageSize <= len s -> VerifyPageChecksum s num = 
 Proof.
   unfold PageSize. intros H. unfold VerifyPageChecksum, PageSize, page_result, isZeroPage.
   replace (len s <? 8192) with false by lia.
-  destruct (all_zero (vis s)); [reflexivity|].
+  destruct (slice_ok s 0 8192) as [pg Hpg]; [lia|lia|pose proof (len_le_cap s); lia|].
+  rewrite Hpg. cbn [bind]. rewrite (slice_vis_within _ _ _ _ Hpg) by lia.
+  destruct (all_zero (sub (vis s) 0 8192)); [reflexivity|].
   change 10 with (8 + Z.of_nat 2). change 4 with (0 + Z.of_nat 4) at 1.
   unfold u16, u32.
   pose proof (slice_u s 8 2 ltac:(lia) ltac:(lia)) as E8.
@@ -102,7 +104,10 @@ Proof.
   destruct (all_zero (block i (vis data))) eqn:Z0.
   - cbn [is_invalid is_vzero negb error_entry snd app]. f_equal. apply quad_eq; try lia; reflexivity.
   - rewrite verify_page_any by (unfold PageSize; lia). cbn [bind].
-    rewrite rel_number_eq. unfold page_result. rewrite Hv, Z0. cbn [cr_valid].
+    rewrite rel_number_eq. unfold page_result. rewrite Hv.
+    replace (sub (block i (vis data)) 0 8192) with (block i (vis data))
+      by (symmetry; apply sub_exact; [reflexivity|rewrite <- Hv; unfold len in Lb; lia]).
+    rewrite Z0. cbn [cr_valid].
     change (stored_checksum (block i (vis data))) with (fld (block i (vis data)) 8 2).
     destruct (fld (block i (vis data)) 8 2 =? cpc (block i (vis data)) (rel_number seg i)) eqn:V.
     + cbn [is_invalid is_vzero negb error_entry snd app]. f_equal. apply quad_eq; try lia; reflexivity.
